@@ -52,7 +52,7 @@ func verifReadRow(r *verifPg, secretColumn []byte) ([]byte, bool) {
 
 // VerifC04_PgSearchable: a searchable column. The written literal is forwarded as hash ++ container, the owner reads
 // the original back, and an equality search for the value is forwarded without the value.
-func VerifX04_PgSearchable() {
+func VerifC09_PgSearchable() {
 	store := verifPgKeys()
 	env := config.CryptoEnvelopeTypeAcraBlock
 	if verif.Choose("envelope", 0, 1) == 1 {
@@ -101,7 +101,7 @@ func VerifX04_PgSearchable() {
 
 // VerifC04_PgMasking: a masked column. The forwarded statement never carries the whole value, the owner reads the
 // original, a client without the keys gets the visible window and the mask, never the hidden part.
-func VerifX04_PgMasking() {
+func VerifC11_PgMasking() {
 	store := verifPgKeys()
 	env := config.CryptoEnvelopeTypeAcraBlock
 	side := maskingCommon.PlainTextSideLeft
@@ -151,7 +151,7 @@ func VerifX04_PgMasking() {
 
 // VerifC04_PgTypedText: a column declared as text (data_type str). The owner gets the text itself, a client without
 // the keys gets what response_on_fail prescribes (the stored value, or the configured default), never the text.
-func VerifX04_PgTypedText() {
+func VerifC19_PgTypedText() {
 	store := verifPgKeys()
 	env := config.CryptoEnvelopeTypeAcraBlock
 	setting := &config.BasicColumnEncryptionSetting{Name: "secret", UsedClientID: "A", CryptoEnvelope: &env, DataType: "str"}
